@@ -1,0 +1,100 @@
+//go:build verif
+
+// verifcmd is used by the verification harness under /verif: it renders every
+// snapshot of the stream on stdin twice as text, the way pp does, and reports
+// whether rendering left the snapshot as a fresh parse of the same stream
+// gives it. It is compiled with -tags verif only.
+//
+// usage: verifcmd <2|3> <base|full> <filter> <match> < stream
+package main
+
+import (
+	"bytes"
+	"fmt"
+	"io"
+	"log"
+	"os"
+	"reflect"
+	"regexp"
+
+	"github.com/maruel/panicparse/v2/internal"
+	"github.com/maruel/panicparse/v2/stack"
+)
+
+func scanAll(data []byte) []*stack.Snapshot {
+	opts := stack.DefaultOpts()
+	opts.GuessPaths = false
+	opts.AnalyzeSources = false
+	var out []*stack.Snapshot
+	var in io.Reader = bytes.NewReader(data)
+	for {
+		c, suffix, err := stack.ScanSnapshot(in, io.Discard, opts)
+		if c != nil {
+			out = append(out, c)
+		}
+		if err != nil {
+			return out
+		}
+		in = io.MultiReader(bytes.NewReader(suffix), in)
+	}
+}
+
+func mainImpl() string {
+	if len(os.Args) != 5 {
+		return "usage"
+	}
+	log.SetOutput(io.Discard)
+	sim := stack.AnyValue
+	if os.Args[1] == "3" {
+		sim = stack.AnyPointer
+	}
+	var filter, match *regexp.Regexp
+	var err error
+	if os.Args[3] != "" {
+		if filter, err = regexp.Compile(os.Args[3]); err != nil {
+			return "regexp"
+		}
+	}
+	if os.Args[4] != "" {
+		if match, err = regexp.Compile(os.Args[4]); err != nil {
+			return "regexp"
+		}
+	}
+	data, err := io.ReadAll(os.Stdin)
+	if err != nil {
+		return "read"
+	}
+	used, fresh := scanAll(data), scanAll(data)
+	if len(used) != len(fresh) {
+		return "scan-differs"
+	}
+	for i, c := range used {
+		if !reflect.DeepEqual(c, fresh[i]) {
+			return fmt.Sprintf("scan-differs:%d", i)
+		}
+		var first, second, third bytes.Buffer
+		_ = internal.VerifRenderText(&first, sim, os.Args[2] == "full", filter, match, c)
+		if !reflect.DeepEqual(c, fresh[i]) {
+			return fmt.Sprintf("mutated-by-rendering:%d", i)
+		}
+		_ = internal.VerifRenderText(&second, sim, os.Args[2] == "full", filter, match, c)
+		if first.String() != second.String() {
+			return fmt.Sprintf("second-rendering-differs:%d", i)
+		}
+		// without filters, after the filtered renderings
+		_ = internal.VerifRenderText(&third, sim, os.Args[2] == "full", nil, nil, c)
+		second.Reset()
+		_ = internal.VerifRenderText(&second, sim, os.Args[2] == "full", nil, nil, fresh[i])
+		if third.String() != second.String() {
+			return fmt.Sprintf("rendering-after-rendering-differs:%d", i)
+		}
+		if !reflect.DeepEqual(c, fresh[i]) {
+			return fmt.Sprintf("mutated-by-rendering:%d", i)
+		}
+	}
+	return fmt.Sprintf("ok:%d", len(used))
+}
+
+func main() {
+	fmt.Println(mainImpl())
+}
